@@ -3,13 +3,13 @@ check on a scratch copy of /repo and write mutants/RESULTS.md.  A mutant whose s
 import json, os, re, subprocess, sys
 ROOT = os.path.dirname(os.path.dirname(os.path.abspath(__file__)))
 rows = []
-for m in json.load(open(os.path.join(ROOT, "mutants", "list.json"))):
+for m in [m_ for f_ in ("list.json", "list2.json") if os.path.exists(os.path.join(ROOT, "mutants", f_)) for m_ in json.load(open(os.path.join(ROOT, "mutants", f_)))] if len(sys.argv) < 2 else json.load(open(os.path.join(ROOT, "mutants", sys.argv[1]))):
     r = subprocess.run([sys.executable, os.path.join(ROOT, "tools", "mutant.py"), m["check"], "--file", m["file"], "--old", m["old"], "--new", m["new"]], capture_output=True, text=True, timeout=3000)
     mm = re.search(r"MUTANT (\w+)", r.stdout)
     verdict = mm.group(1) if mm else ("SKIPPED" if "mutation site count" in r.stderr else "ERROR")
     rows.append((m["check"], m["file"], m["what"], verdict))
     print(*rows[-1], flush=True)
-with open(os.path.join(ROOT, "mutants", "RESULTS.md"), "w") as fh:
+with open(os.path.join(ROOT, "mutants", "RESULTS.md" if len(sys.argv) < 2 else "RESULTS_" + sys.argv[1].replace(".json", "") + ".md"), "w") as fh:
     fh.write("Hand-written sensitivity mutants (one textual edit each) against the quick tier, VERIF_SEED=1\n\n| check | file | mutation | verdict |\n|---|---|---|---|\n")
     for row in rows:
         fh.write("| " + " | ".join(row) + " |\n")
